@@ -1,6 +1,7 @@
 import LoraVerif.Model.Mac
 import LoraVerif.Gen.SessionStatic
 import LoraVerif.Gen.FrontEndStatic
+import LoraVerif.Props.TieA.Rx2Complete
 /-!
 # C12, tie A: the ADR thresholds of `session.rs`
 
@@ -59,4 +60,26 @@ theorem tieA_setDatarate_mirror :
     Gen.FrontEndStatic.async_set_datarate = Gen.FrontEndStatic.hook_set_datarate ∧
     Gen.FrontEndStatic.nb_set_datarate = Gen.FrontEndStatic.hook_set_datarate := ⟨rfl, rfl⟩
 
+/-- builder L — the WHOLE method: the state-passing translation of the current source of
+`Session::rx2_complete` (`Gen/SessionFn.lean`) is the model's `rx2Complete` on every session whose
+counters fit `u32` and every configuration: `adr_ack_cnt` counts (saturating) only while ADR is on, the
+data rate steps to `next_lower_datarate` exactly at 96, 128, … and only if a lower rate exists, and the
+answer is `NoAck` exactly after a confirmed uplink.  (`C12.timeout_refines`, `C12.stepdown_only_at`
+are about that model function.)  `next_lower_datarate` itself is abstract in the translation; it is
+instantiated with the model's `nextLowerDatarate` (tied by the correspondence).  Proved in
+`Props/TieA/Rx2Complete.lean`. -/
+theorem tieA_rx2_complete (s0 : Session) (gs : Gen.SessionFn.Session) (g : Gen.SessionFn.Configuration) (r : RegionId)
+    (hw : TieA.SessWF gs) :
+    (Gen.SessionFn.Session.rx2_complete gs g (TieA.regionOf r)).bind
+        (fun o => (TieA.respOf o.1).map (fun resp => (resp, TieA.sessOf s0 o.2.1, TieA.cfgOf o.2.2)))
+      = some (rx2Complete (TieA.sessOf s0 gs) (TieA.cfgOf g) r) :=
+  TieA.rx2_complete_eq s0 gs g r hw
+
+/-- non-vacuity: at count 127 with ADR on, EU868 DR3 → DR2, the count becomes 128 -/
+example :
+    (Gen.SessionFn.Session.rx2_complete ⟨true, 200, some 3, 127⟩ ⟨._3, 1000, 5000, 6000, none, 0, none, none, true⟩ (TieA.regionOf .EU868)).map
+        (fun o => (o.1, o.2.1.adr_ack_cnt, o.2.2.data_rate))
+      = some (.NoAck, 128, ._2) := by decide
+
+#print axioms tieA_rx2_complete
 end C12
